@@ -20,7 +20,14 @@ def ctor(K, elems):
     return '%s::new(%s)' % (K, ', '.join(elems))
 
 
-def build_roots(kinds):
+PER_TYPE_RED = ['i8', 'i16', 'i64', 'u8', 'u16', 'u32', 'u64', 'f64'] + ['core::num::Wrapping<%s>' % t for t in ('i8', 'i16', 'i32', 'i64', 'u8', 'u16', 'u32', 'u64')]
+PER_TYPE_SV = ['i8', 'i16', 'i32', 'i64', 'u8', 'u16', 'u32', 'u64', 'f64']
+
+
+def tyname(ty): return ty.replace('core::num::Wrapping<', 'W').replace('>', '')
+
+
+def build_roots(kinds, tier='thorough'):
     roots = []; meta = {}
 
     def add(name, code, max_paths=80, opaque=(), **m):
@@ -74,6 +81,20 @@ def build_roots(kinds):
         add('r_reduce_or_i_%s' % K, 'pub fn r_reduce_or_i_%s(a: %s) -> bool { a.reduce_or() }' % (K, VI), kind='rbool', f='or', ty='i32', K=K)
         add('r_reduce_and_f_%s' % K, 'pub fn r_reduce_and_f_%s(a: %s) -> bool { a.reduce_and() }' % (K, VF), kind='rbool', f='and', ty='f32', K=K)
         add('r_reduce_or_f_%s' % K, 'pub fn r_reduce_or_f_%s(a: %s) -> bool { a.reduce_or() }' % (K, VF), kind='rbool', f='or', ty='f32', K=K)
+        # the boolean reductions and the scalar-on-the-left operators are separate impls per primitive type (macro arms): every arm is analysed
+        wide = n > 8
+        for ty in PER_TYPE_RED:
+            if wide and tier == 'quick': continue
+            tn = tyname(ty); VT = '%s<%s>' % (K, ty)
+            add('r_reduce_and_%s_%s' % (tn, K), 'pub fn r_reduce_and_%s_%s(a: %s) -> bool { a.reduce_and() }' % (tn, K, VT), kind='rbool', f='and', ty=ty, K=K)
+            add('r_reduce_or_%s_%s' % (tn, K), 'pub fn r_reduce_or_%s_%s(a: %s) -> bool { a.reduce_or() }' % (tn, K, VT), kind='rbool', f='or', ty=ty, K=K)
+        for ty in PER_TYPE_SV:
+            tn = tyname(ty); VT = '%s<%s>' % (K, ty)
+            for op, sy in (('add', '+'), ('mul', '*')):
+                if (ty, op) in (('f32', 'add'), ('f32', 'mul'), ('i32', 'add')): continue
+                add('r_sv_%s_%s_%s' % (tn, op, K), 'pub fn r_sv_%s_%s_%s(s: %s, a: %s) -> %s { s %s a }' % (tn, op, K, ty, VT, VT, sy), kind='sv', op=op, ty=ty, K=K)
+        if not (wide and tier == 'quick'):
+            add('r_reduce_ne_%s' % K, '#[allow(deprecated)] pub fn r_reduce_ne_%s(a: %s) -> bool { a.reduce_ne() }' % (K, VB), kind='rne', K=K, max_paths=600)
         # element-wise min/max and comparison masks
         add('r_min_%s' % K, 'pub fn r_min_%s(a: %s, b: %s) -> %s { %s::min(a, b) }' % (K, VI, VI, VI, K), kind='minmax', f='min', K=K)
         add('r_max_%s' % K, 'pub fn r_max_%s(a: %s, b: %s) -> %s { %s::max(a, b) }' % (K, VI, VI, VI, K), kind='minmax', f='max', K=K)
@@ -161,7 +182,7 @@ def run(ctx):
     ctx.assumptions = ['scalar operators are opaque functions of their operands (ring operations are compared as canonical polynomials)', 'SIMD (platform_intrinsics) code paths are nightly-only and excluded']
     feats = QUICK_FEATURES if ctx.tier == 'quick' else ALL_FEATURES
     kinds = vec_kinds(feats)
-    roots, meta = build_roots(kinds)
+    roots, meta = build_roots(kinds, ctx.tier)
     sc = ctx.scan(roots, feats)
     if sc.compile_error: return
     done = 0
@@ -227,11 +248,28 @@ def run(ctx):
                 ctx.ob(key, got == want, 'dep: partial min/max reduction is a fold of partial_min/max over every element exactly once', w, want, got)
             elif k == 'rbool':
                 if m['ty'] == 'bool': lits = [B('var', 'a0.%s' % f) for f in flds]
+                elif 'Wrapping' in m['ty']: lits = [ne(sym('a0.%s.0' % f), C(0)) for f in flds]
                 else: lits = [ne(x, C(0)) for x in A]
                 if m['f'] == 'and':
                     all_or_none(ctx, key, rs, lits, 'paths: reduce_and is true iff every element is true/non-zero', w, lambda p: truth(p.ret))
                 else:
                     all_or_none(ctx, key, rs, [l.neg() for l in lits], 'paths: reduce_or is false iff every element is false/zero', w, lambda p: neg_truth(p.ret))
+            elif k == 'rne':
+                # deprecated reduce_ne: the chained `!=` ((e0 != e1) != e2) ..., i.e. parity of the true elements; evaluated on assignments
+                import itertools
+                asgs = itertools.product((False, True), repeat=n) if n <= 8 else [tuple(False for _ in range(n)), tuple(True for _ in range(n))] + [tuple(j == i for j in range(n)) for i in range(n)] + [tuple(j in (i, (i * 7 + 3) % n) for j in range(n)) for i in range(n)]
+                bad = None; cnt = 0
+                for asg in asgs:
+                    cnt += 1
+                    env = {'__bool__': {'a0.%s' % f: b for f, b in zip(flds, asg)}}
+                    sel = [p for p in rs.paths if p.out == 'ret' and all(c.eval(env) for c in p.conds)]
+                    if len(sel) != 1: bad = (asg, '%d paths selected' % len(sel)); break
+                    t = truth(sel[0].ret)
+                    got = t.eval(env) if isinstance(t, B) else bool(t)
+                    want = asg[0]
+                    for b in asg[1:]: want = (want != b)
+                    if got != want: bad = (asg, 'got %s' % got); break
+                ctx.ob(key, bad is None, 'paths: reduce_ne is the left-to-right chain of != over the elements (evaluated on %s assignments)' % ('all 2^n' if n <= 8 else 'none/all/singles/pairs'), w, 'chained != on %d assignments' % cnt, '' if bad is None else 'elements %s: %s' % (''.join('1' if b else '0' for b in bad[0]), bad[1]))
             elif k == 'minmax':
                 Bv = vsyms('a1', K)
                 vec_eq(ctx, key, single().ret, [minmax(m['f'], A[i], Bv[i]) for i in range(n)], 'alg=: element-wise min/max', w)
@@ -288,7 +326,7 @@ def run(ctx):
                 if m['f'] == 'add': E = [vs[0][i] + vs[1][i] + vs[2][i] for i in range(n)]
                 else: E = [vs[0][i] * vs[1][i] * vs[2][i] for i in range(n)]
                 vec_eq(ctx, key, p.ret, E, 'alg=: Sum/Product over an iterator folds per element', w)
-        except AssertionError as e:
+        except (AssertionError, KeyError, ValueError, TypeError, IndexError, ZeroDivisionError, AttributeError) as e:
             ctx.ob(key + '/paths', False, 'branch-free', w, 'one path', str(e))
     ctx.floor('roots analysed', done, len(roots))
     ctx.floor('vector kinds', len(kinds), 13)
